@@ -307,6 +307,12 @@ def t_big(container, tier):
 			refs = load_signatures(p)
 		exp_full = np.array([[f32bits(jaccarddist(q, a)) for a in arrs] for q in queries], dtype=np.uint32)
 		selections = {'all': None, 'reversed': list(range(n - 1, -1, -1)), 'every-3rd-with-repeats': [i for i in range(0, n, 3) for _ in (0, 1)][:1201]}
+		# index selections as NumPy arrays of narrow / unsigned types holding the largest value of their type (index arithmetic in the caller's type wraps)
+		selections.update({
+			'int8-array-up-to-127': np.array([127, 126, 0, 127, 5, 64], dtype='i1'), 'uint8-array-up-to-255': np.array([255, 254, 0, 128, 127, 255], dtype='u1'),
+			'int16-array': np.array([n - 1, 0, 255, 256, 127, 128], dtype='i2'), 'uint16-array': np.array([n - 1, n - 2, 0, 256], dtype='u2'),
+			'uint64-array': np.array([n - 1, 0, 700], dtype='u8'), 'int32-array-reversed': np.arange(n - 1, -1, -1, dtype='i4'),
+		})
 		for threads in (1, 4, 16):
 			omp_set_num_threads(threads)
 			got = jaccarddist_array(queries[0], refs).view(np.uint32)
@@ -319,7 +325,7 @@ def t_big(container, tier):
 					if chunk == 7 and (threads != 4 or sname != 'all'):
 						continue
 					res = jaccarddist_matrix(queries, refs, ref_indices=sel, chunksize=chunk).view(np.uint32)
-					exp = exp_full if sel is None else exp_full[:, sel]
+					exp = exp_full if sel is None else exp_full[:, [int(x) for x in sel]]
 					sh.evals += 1
 					if res.shape != exp.shape or not np.array_equal(res, exp):
 						bad = np.argwhere(res != exp)[0].tolist() if res.shape == exp.shape else None
